@@ -148,6 +148,14 @@ func vars(prefix string, num int) []string {
 	return ss
 }
 
+// list joins the values, if any, and the last value with commas.
+func list(ss []string, last string) string {
+	if len(ss) == 0 {
+		return last
+	}
+	return strings.Join(ss, ", ") + ", " + last
+}
+
 func zip(ss, rr []string) []string {
 	qq := make([]string, len(ss))
 	for i := range ss {
@@ -198,14 +206,15 @@ func (g *gen) genError(typs []types.Type) error {
 	p.P("return func(%s) %s {", strings.Join(firstVarTypes, ", "), wrap(strings.Join(resultStrs[len(resultStrs)-1], ", ")))
 	p.In()
 	for i := range params {
-		p.P("%s, err%d := %s(%s)", strings.Join(vars[i+1], ", "), i, fs[i], strings.Join(vars[i], ", "))
-		p.P("if err%d != nil {", i)
+		errVar := "err" + strconv.Itoa(i)
+		p.P("%s := %s(%s)", list(vars[i+1], errVar), fs[i], strings.Join(vars[i], ", "))
+		p.P("if %s != nil {", errVar)
 		p.In()
-		p.P("return %s, err%d", strings.Join(zeros, ", "), i)
+		p.P("return %s", list(zeros, errVar))
 		p.Out()
 		p.P("}")
 	}
-	p.P("return %s, nil", strings.Join(vars[len(vars)-1], ", "))
+	p.P("return %s", list(vars[len(vars)-1], "nil"))
 	p.Out()
 	p.P("}")
 	p.Out()
